@@ -430,13 +430,7 @@ impl Part for Scopes {
             let desc = format!("{:?}", pairs.iter().map(|(k, v)| format!("{k}={v}")).collect::<Vec<_>>());
             let _ = minijinja::verif::take_balance_reports();
             let res = t.render(Value::from_pairs(pairs));
-            let mut reports = minijinja::verif::take_balance_reports();
-            // `from ... import` leaves the (empty) value of its discarded capture on the operand
-            // stack: an operand left behind, not one taken away — the statement does not speak
-            // about that, so it is not held against the engine (observed on the unchanged tree)
-            if source.contains("{% from ") {
-                reports.retain(|r| !r.contains("operands left at exit") && !r.contains("operand left at exit"));
-            }
+            let reports = minijinja::verif::take_balance_reports();
             let out = match res {
                 Ok(o) => o,
                 Err(e) => {
